@@ -23,6 +23,9 @@ class P:
             mx = rng.choice([512, 1500, 1500, 9000])
             port = rng.randrange(20000, 60000)
             lens = [0, 1, mx - 29, mx - 28, mx - 27, mx - 1, mx] + [rng.randrange(0, mx + 1) for _ in range(6)]
+            # where an IP layer with a 1500-octet MTU cuts (max-udp-size above it only): payloads that end exactly at, one before and one
+            # after a fragment boundary (28 + n = 20 + k * 1480), and at the largest unfragmented size
+            lens += [n for k in range(1, 7) for n in (k * 1480 - 9, k * 1480 - 8, k * 1480 - 7) if 0 <= n <= mx and (k < 3 or rng.random() < 0.5)]
             rng.shuffle(lens)
             # consecutive datagrams of equal length from different exporters, too
             lens += [100, 100, 100, mx, mx]
